@@ -80,15 +80,16 @@ func hasProp(props []string, id string) bool {
 }
 
 type runOutput struct {
-	results   []*SolveResult
-	funcs     []string
-	trusted   []string
-	assumed   map[string]bool
-	abstracts map[string]bool
-	errs      []string
-	missing   []string
-	vcBytes   int
-	loadS     float64
+	results      []*SolveResult
+	funcs        []string
+	trusted      []string
+	assumed      map[string]bool
+	abstracts    map[string]bool
+	checkedFacts map[string]bool // facts used like assumptions but checked mechanically on this run
+	errs         []string
+	missing      []string
+	vcBytes      int
+	loadS        float64
 }
 
 // verifyProperty runs every function contract tagged with prop in the listed packages.
@@ -98,7 +99,7 @@ func verifyProperty(repo string, cfg *PropConfig, timeoutS int, overlay map[stri
 	if err != nil {
 		return nil, err
 	}
-	out := &runOutput{assumed: map[string]bool{}, abstracts: map[string]bool{}, loadS: time.Since(t0).Seconds()}
+	out := &runOutput{assumed: map[string]bool{}, abstracts: map[string]bool{}, checkedFacts: map[string]bool{}, loadS: time.Since(t0).Seconds()}
 	var keys []string
 	for k := range L.FuncCon {
 		keys = append(keys, k)
@@ -132,6 +133,8 @@ func verifyProperty(repo string, cfg *PropConfig, timeoutS int, overlay map[stri
 		for a, tr := range x.assumed {
 			if tr {
 				out.assumed[a] = true
+			} else if strings.HasPrefix(a, "unexported error variable ") {
+				out.checkedFacts[a] = true
 			}
 		}
 		for a := range x.abstracts {
@@ -517,6 +520,12 @@ func writeEvidence(id, tier string, seed int, out *runOutput, cfg *PropConfig, w
 	}
 	sort.Strings(abs)
 	cov["abstracted_unmodelled"] = abs
+	var cf []string
+	for a := range out.checkedFacts {
+		cf = append(cf, a)
+	}
+	sort.Strings(cf)
+	cov["checked_side_facts"] = cf
 	var as []string
 	for a := range out.assumed {
 		as = append(as, a)
